@@ -140,3 +140,276 @@ theorem parenDoc_ok (d : Doc) (hd : Agree commentKey d) :
   simp [val, h1, h2]
 
 end SamVerif.ExprDoc
+
+namespace SamVerif.ExprDoc
+open SamVerif.Doc
+open SamVerif.Imports (commentsDocGrouped optPreceding commentDocs commaSep)
+open SamVerif.CommentQueue (Comment Kind)
+
+/-! ### Round 6: member access, calls, dotted chains -/
+
+theorem commentsDocExpanded_ok (cs : List Comment) (b : Bool) :
+    match SamVerif.Imports.commentsDoc cs b with
+    | some d => Agree commentKey d ∧ val commentKey d = cs.flatMap commentChars
+    | none => cs.flatMap commentChars = [] := by
+  unfold SamVerif.Imports.commentsDoc
+  have hl := commentDocsList_ok cs
+  by_cases he : (cs.flatMap commentDocs).isEmpty = true
+  · simp only [he, if_true]
+    have : cs.flatMap commentDocs = [] := by simpa using he
+    rw [← hl.2, this]; rfl
+  · simp only [he, Bool.false_eq_true, if_false]
+    by_cases hs : (cs.flatMap commentDocs).getLast? = some Doc.line
+    · have hag : Agree commentKey (concatV (cs.flatMap commentDocs).dropLast) :=
+        concatV_agree commentKey _ (fun d hd => hl.1 d (List.dropLast_subset _ hd))
+      have hv : val commentKey (concatV (cs.flatMap commentDocs).dropLast) = cs.flatMap commentChars := by
+        rw [concatV_val, dropLast_line_val _ hs, hl.2]
+      simp only [hs, decide_true, if_true, Bool.and_true]
+      cases b
+      · exact ⟨hag, hv⟩
+      · exact ⟨⟨hag, trivial⟩, by simp [val, hv]⟩
+    · have hag : Agree commentKey (concatV (cs.flatMap commentDocs)) := concatV_agree commentKey _ hl.1
+      have hv : val commentKey (concatV (cs.flatMap commentDocs)) = cs.flatMap commentChars := by
+        rw [concatV_val, hl.2]
+      simp only [hs, decide_false, Bool.and_false]
+      exact ⟨hag, hv⟩
+
+theorem flattenGetD_ok (d : Doc) (h : Agree commentKey d) :
+    Agree commentKey ((flatten d).getD d) ∧ val commentKey ((flatten d).getD d) = val commentKey d := by
+  cases hf : flatten d with
+  | none => simpa using h
+  | some f => exact ⟨flatten_agree commentKey d f hf, flatten_val commentKey ck_space d f hf⟩
+
+theorem commentsDocFlattened_ok (cs : List Comment) (b : Bool) :
+    match commentsDocFlattened cs b with
+    | some d => Agree commentKey d ∧ val commentKey d = cs.flatMap commentChars
+    | none => cs.flatMap commentChars = [] := by
+  unfold commentsDocFlattened
+  have hl := commentDocsList_ok cs
+  by_cases he : (cs.flatMap commentDocs).isEmpty = true
+  · simp only [he, if_true]
+    have : cs.flatMap commentDocs = [] := by simpa using he
+    rw [← hl.2, this]; rfl
+  · simp only [he, Bool.false_eq_true, if_false]
+    by_cases hs : (cs.flatMap commentDocs).getLast? = some Doc.line
+    · have hag : Agree commentKey (concatV (cs.flatMap commentDocs).dropLast) :=
+        concatV_agree commentKey _ (fun d hd => hl.1 d (List.dropLast_subset _ hd))
+      have hv : val commentKey (concatV (cs.flatMap commentDocs).dropLast) = cs.flatMap commentChars := by
+        rw [concatV_val, dropLast_line_val _ hs, hl.2]
+      have hf := flattenGetD_ok _ hag
+      simp only [hs, decide_true, if_true, Bool.and_true]
+      cases b
+      · exact ⟨hf.1, hf.2.trans hv⟩
+      · exact ⟨⟨hf.1, trivial⟩, by simp [val, hf.2, hv]⟩
+    · have hag : Agree commentKey (concatV (cs.flatMap commentDocs)) := concatV_agree commentKey _ hl.1
+      have hv : val commentKey (concatV (cs.flatMap commentDocs)) = cs.flatMap commentChars := by
+        rw [concatV_val, hl.2]
+      have hf := flattenGetD_ok _ hag
+      simp only [hs, decide_false, Bool.and_false]
+      exact ⟨hf.1, hf.2.trans hv⟩
+
+theorem memberPre_ok (flat : Bool) (cs : List Comment) :
+    Agree commentKey (memberPre flat cs) ∧ val commentKey (memberPre flat cs) = cs.flatMap commentChars := by
+  unfold memberPre
+  cases flat
+  · simp only [Bool.false_eq_true, if_false]
+    have h := commentsDocExpanded_ok cs true
+    split
+    · rename_i d hd; rw [hd] at h; exact ⟨⟨trivial, h.1⟩, by simp [val, h.2]⟩
+    · rename_i hd; rw [hd] at h; exact ⟨trivial, by simp [val, h]⟩
+  · simp only [if_true]
+    have h := commentsDocFlattened_ok cs false
+    split
+    · rename_i d hd; rw [hd] at h; exact ⟨⟨trivial, h.1⟩, by simp [val, ck_space, h.2]⟩
+    · rename_i hd; rw [hd] at h; exact ⟨trivial, by simp [val, h]⟩
+
+/-- Values joined by a comma. -/
+def joinC : List Str → Str
+  | [] => []
+  | [x] => x
+  | x :: y :: rest => x ++ [','] ++ joinC (y :: rest)
+
+theorem ck_comma : commentKey.text [','] = [','] := by decide
+theorem ck_dot : commentKey.text ['.'] = ['.'] := by decide
+
+theorem commaSep_ok (ds : List Doc) (h : ∀ d ∈ ds, Agree commentKey d) :
+    Agree commentKey (commaSep ds) ∧ val commentKey (commaSep ds) = joinC (ds.map (val commentKey)) := by
+  induction ds with
+  | nil => exact ⟨trivial, rfl⟩
+  | cons x xs ih =>
+    cases xs with
+    | nil => exact ⟨h x (by simp), by simp [commaSep, joinC]⟩
+    | cons y rest =>
+      have ih' := ih (fun d hd => h d (List.mem_cons_of_mem _ hd))
+      refine ⟨⟨h x (by simp), trivial, trivial, ih'.1⟩, ?_⟩
+      simp [commaSep, concatV, val, ck_comma, joinC, ih'.2]
+
+theorem commentsDoc_none_iff (cs : List Comment) (b : Bool) :
+    SamVerif.Imports.commentsDoc cs b = none ↔ cs = [] := by
+  unfold SamVerif.Imports.commentsDoc
+  cases cs with
+  | nil => simp
+  | cons c cs => obtain ⟨k, t⟩ := c; cases k <;> simp [commentDocs]
+
+theorem commaSepEnding_ok (ds : List Doc) (ecs : List Comment) (h : ∀ d ∈ ds, Agree commentKey d) :
+    Agree commentKey (commaSepEnding ds ecs) ∧
+      val commentKey (commaSepEnding ds ecs) =
+        joinC (ds.map (val commentKey)) ++
+          (if ecs.isEmpty then [] else (if ds.isEmpty then [] else [',']) ++ ecs.flatMap commentChars) := by
+  unfold commaSepEnding
+  have hc := commentsDocExpanded_ok ecs false
+  have hb := commaSep_ok ds h
+  split
+  · rename_i cd hcd
+    rw [hcd] at hc
+    have hne : ecs.isEmpty = false := by
+      cases ecs with
+      | nil => simp [SamVerif.Imports.commentsDoc] at hcd
+      | cons c cs => rfl
+    by_cases hd : ds.isEmpty = true
+    · have : ds = [] := by simpa using hd
+      subst this
+      simp [hc.1, hc.2, hne, joinC]
+    · simp only [hd, Bool.false_eq_true, if_false, hne]
+      exact ⟨⟨hb.1, trivial, trivial, hc.1⟩, by simp [concatV, val, ck_comma, hb.2, hc.2]⟩
+  · rename_i hcd
+    have : ecs = [] := (commentsDoc_none_iff ecs false).mp hcd
+    subst this
+    simpa using hb
+
+theorem argsDoc_ok (scs : List Comment) (ds : List Doc) (ecs : List Comment)
+    (h : ∀ d ∈ ds, Agree commentKey d) :
+    Agree commentKey (argsDoc scs ds ecs) ∧
+      val commentKey (argsDoc scs ds ecs) =
+        scs.flatMap commentChars ++ (['('] ++ (joinC (ds.map (val commentKey)) ++
+          (if ecs.isEmpty then [] else (if ds.isEmpty then [] else [',']) ++ ecs.flatMap commentChars)) ++ [')']) := by
+  unfold argsDoc
+  have hc := commaSepEnding_ok ds ecs h
+  have hp := parenDoc_ok _ hc.1
+  have ho := optPreceding_ok scs _ hp.1
+  exact ⟨ho.1, by rw [ho.2, hp.2, hc.2]⟩
+
+/-! dotted chains -/
+
+/-- Well-formed chain IR: every document in it has agreeing `Union`s. -/
+def IRok (ir : ChainIR) : Prop :=
+  Agree commentKey ir.1 ∧ ∀ m ∈ ir.2, ∀ d ∈ m.2, Agree commentKey d
+
+def memberVal (m : List Comment × List Doc) : Str :=
+  m.1.flatMap commentChars ++ ['.'] ++ m.2.flatMap (val commentKey)
+
+def chainVal (ir : ChainIR) : Str := val commentKey ir.1 ++ ir.2.flatMap memberVal
+
+theorem seg_ok (flat : Bool) (m : List Comment × List Doc) (h : ∀ d ∈ m.2, Agree commentKey d) :
+    (∀ d ∈ seg flat m, Agree commentKey d) ∧ (seg flat m).flatMap (val commentKey) = memberVal m := by
+  have hm := memberPre_ok flat m.1
+  refine ⟨?_, ?_⟩
+  · intro d hd
+    simp only [seg, List.cons_append, List.nil_append, List.mem_cons] at hd
+    rcases hd with rfl | rfl | hd
+    · exact hm.1
+    · trivial
+    · exact h d hd
+  · simp [seg, memberVal, hm.2, val, ck_dot]
+
+theorem segs_ok (flat : Bool) (ms : List (List Comment × List Doc))
+    (h : ∀ m ∈ ms, ∀ d ∈ m.2, Agree commentKey d) :
+    (∀ d ∈ ms.flatMap (seg flat), Agree commentKey d) ∧
+      (ms.flatMap (seg flat)).flatMap (val commentKey) = ms.flatMap memberVal := by
+  induction ms with
+  | nil => simp
+  | cons m ms ih =>
+    have hm := seg_ok flat m (h m (by simp))
+    have ih' := ih (fun x hx => h x (List.mem_cons_of_mem _ hx))
+    refine ⟨?_, ?_⟩
+    · intro d hd
+      simp only [List.flatMap_cons, List.mem_append] at hd
+      rcases hd with hd | hd
+      · exact hm.1 d hd
+      · exact ih'.1 d hd
+    · simp only [List.flatMap_cons, List.flatMap_append, hm.2, ih'.2]
+
+theorem chainExpanded0_ok (ir : ChainIR) (h : IRok ir) :
+    Agree commentKey (chainExpanded0 ir) ∧ val commentKey (chainExpanded0 ir) = chainVal ir := by
+  have hF := segs_ok false ir.2 h.2
+  refine ⟨⟨h.1, show Agree commentKey (concatV (ir.2.flatMap (seg false))) from
+    concatV_agree commentKey _ hF.1⟩, ?_⟩
+  simp [chainExpanded0, concatV, val, concatV_val, hF.2, chainVal]
+
+theorem chainExpanded_ok (ir : ChainIR) (h : IRok ir) :
+    Agree commentKey (chainExpanded ir) ∧ val commentKey (chainExpanded ir) = chainVal ir := by
+  have hE0 := chainExpanded0_ok ir h
+  obtain ⟨b, ms⟩ := ir
+  cases ms with
+  | nil => simpa [chainExpanded] using hE0
+  | cons first rest =>
+    have hfirst := h.2 first (by simp)
+    have hrest := segs_ok false rest (fun m hm => h.2 m (List.mem_cons_of_mem _ hm))
+    have hmp := memberPre_ok true first.1
+    have hless : val commentKey (concatV [b, memberPre true first.1, .text ['.'], concatV first.2,
+        .nest 2 (concatV (rest.flatMap (seg false)))]) = chainVal (b, first :: rest) := by
+      simp [concatV, val, concatV_val, hmp.2, ck_dot, hrest.2, chainVal, memberVal, List.append_assoc]
+    simp only [chainExpanded]
+    refine ⟨⟨hless.trans hE0.2.symm, ?_, hE0.1⟩, by simp only [val]; exact hless⟩
+    exact ⟨h.1, hmp.1, trivial, concatV_agree commentKey _ hfirst,
+      show Agree commentKey (concatV (rest.flatMap (seg false))) from concatV_agree commentKey _ hrest.1⟩
+
+theorem dottedChain_ok (ir : ChainIR) (h : IRok ir) :
+    Agree commentKey (dottedChain ir) ∧ val commentKey (dottedChain ir) = chainVal ir := by
+  have hE := chainExpanded_ok ir h
+  have hT := segs_ok true ir.2 h.2
+  have hFlat : val commentKey (concatV ([ir.1] ++ ir.2.flatMap (seg true))) = chainVal ir := by
+    simp [concatV_val, hT.2, chainVal]
+  unfold dottedChain
+  split
+  · rename_i f hf
+    have hfv := flatten_val commentKey ck_space _ f hf
+    exact ⟨⟨(hfv.trans hFlat).trans hE.2.symm, flatten_agree commentKey _ f hf, hE.1⟩,
+      by simp only [val]; exact hfv.trans hFlat⟩
+  · exact hE
+
+theorem dropLast_append_last {α : Type} (l : List α) (a : α) (h : l.getLast? = some a) :
+    l.dropLast ++ [a] = l := by
+  induction l with
+  | nil => simp at h
+  | cons x xs ih =>
+    cases xs with
+    | nil => simp at h; simp [h]
+    | cons y ys =>
+      have h' : (y :: ys).getLast? = some a := by simpa [List.getLast?_cons_cons] using h
+      simp only [List.dropLast_cons_cons, List.cons_append, ih h']
+
+theorem extendField_ok (ir : ChainIR) (ncs : List Comment) (name : Str) (h : IRok ir) :
+    IRok (extendField ir ncs name) ∧
+      chainVal (extendField ir ncs name) = chainVal ir ++ (ncs.flatMap commentChars ++ ['.'] ++ nonWs name) := by
+  refine ⟨⟨h.1, ?_⟩, ?_⟩
+  · intro m hm d hd
+    simp only [extendField, List.mem_append, List.mem_singleton] at hm
+    rcases hm with hm | rfl
+    · exact h.2 m hm d hd
+    · simp at hd; rcases hd with rfl | rfl <;> trivial
+  · simp [extendField, chainVal, memberVal, val, commentKey, List.append_assoc]
+
+theorem extendCall_ok (ir : ChainIR) (ad : Doc) (h : IRok ir) (had : Agree commentKey ad) :
+    IRok (extendCall ir ad) ∧ chainVal (extendCall ir ad) = chainVal ir ++ val commentKey ad := by
+  unfold extendCall
+  split
+  · rename_i last hl
+    have hsplit := dropLast_append_last ir.2 last hl
+    refine ⟨⟨h.1, ?_⟩, ?_⟩
+    · intro m hm d hd
+      simp only [List.mem_append, List.mem_singleton] at hm
+      rcases hm with hm | rfl
+      · exact h.2 m (List.dropLast_subset _ hm) d hd
+      · simp only [List.mem_append, List.mem_singleton] at hd
+        rcases hd with hd | rfl
+        · exact h.2 last (by rw [← hsplit]; simp) d hd
+        · exact had
+    · conv => rhs; rw [chainVal, ← hsplit]
+      simp [chainVal, memberVal, List.append_assoc]
+  · exact ⟨⟨⟨h.1, had⟩, by simp⟩, by
+      rename_i hl
+      have : ir.2 = [] := by simpa using hl
+      simp [chainVal, val, this]⟩
+
+end SamVerif.ExprDoc
